@@ -143,3 +143,211 @@ Section WithPathMatch.
     intros H Hu Hin Hs. rewrite (thread_files_flags bn bf fs n f seen sr H Hu Hin). apply in_map. exact Hs.
   Qed.
 End WithPathMatch.
+
+(* ------------------------------------------------------------------ *)
+(* After fix 524f0f5: the thread executor leaves the same flags as the single
+   executor, hence reports the same unmatched suppressions. *)
+Section ThreadEqualsSingle.
+  Variable pm : str -> str -> bool.
+
+  Definition texts_ok (ms : list (emsg * str)) : Prop :=
+    (forall m, In m ms -> is_nil (snd m) = false)
+    /\ (forall e1 t1 e2 t2, In (e1, t1) ms -> In (e2, t2) ms -> t1 = t2 -> e1 = e2).
+
+  Definition macro_local (s : supp) : Prop := stype_eqb (s_type s) TMacro = true -> is_local s = true.
+
+  (* the two flag criteria have the shape "consulted, and R" *)
+  Variable R : supp -> emsg -> bool.
+  Hypothesis R1 : forall s e, R s (no_macros e) = true -> R s e = true.
+  Hypothesis R2 : forall s e, stype_eqb (s_type s) TMacro = false -> R s (no_macros e) = R s e.
+
+  Definition P (g : bool) (e : emsg) (s : supp) : bool := applicable g e s && R s e.
+  Definition anyP (Q : list query) (s : supp) : bool := existsb (fun q => P (snd q) (fst q) s) Q.
+
+  Lemma applicable_mono e s : applicable false e s = true -> applicable true e s = true.
+  Proof. unfold applicable. cbn [negb andb orb]. destruct (is_local s); cbn; [auto|discriminate]. Qed.
+
+  Lemma applicable_local e s : is_local s = true -> applicable false e s = applicable true e s.
+  Proof. unfold applicable. intros ->. reflexivity. Qed.
+
+  Lemma P_mono g e s : P g e s = true -> P true e s = true.
+  Proof.
+    destruct g; [auto|]. unfold P. intros H. apply andb_prop in H. destruct H as [H1 H2].
+    rewrite (applicable_mono e s H1), H2. reflexivity.
+  Qed.
+
+  Lemma nomsg_queries_hidden n f ms : forall seen e t,
+    In (e, t) ms -> existsb (hides pm false e) n = true -> In (e, true) (nomsg_queries pm false n f seen ms).
+  Proof.
+    induction ms as [|[e0 t0] ms IH]; intros seen e t H Hh; [destruct H|].
+    cbn [nomsg_queries]. destruct H as [H|H].
+    - injection H as -> ->. rewrite Hh. cbn [negb andb app]. right. left. reflexivity.
+    - apply in_or_app. right. eapply IH; eassumption.
+  Qed.
+
+  Lemma pick_in {A} (bs : list bool) : forall (xs : list A) x, In x (pick bs xs) -> In x xs.
+  Proof.
+    induction bs as [|b bs IH]; intros [|y xs] x H; cbn [pick] in H; try (destruct H; fail).
+    destruct b; [destruct H as [->|H]; [left; reflexivity|right; auto]|right; auto].
+  Qed.
+
+  Lemma mem_str_cons t t0 seen : mem_str t (t0 :: seen) = str_eqb t t0 || mem_str t seen.
+  Proof. reflexivity. Qed.
+
+  (* a finding no local suppression hides is forwarded at its first occurrence *)
+  Lemma forwarded_first n ms : forall seen e t,
+    texts_ok ms -> In (e, t) ms -> existsb (hides pm false e) n = false ->
+    mem_str t seen = true \/ In (e, t) (pick (spec_forward pm false n seen ms) ms).
+  Proof.
+    induction ms as [|[e0 t0] ms IH]; intros seen e t Hok Hin Hh; [destruct Hin|].
+    assert (Hok' : texts_ok ms).
+    { destruct Hok as [H1 H2]. split; [intros m Hm; apply H1; right; exact Hm|].
+      intros e1 t1 e2 t2 Ha Hb. apply H2; right; assumption. }
+    cbn [spec_forward pick].
+    assert (Hn0 : is_nil t0 = false) by (apply (proj1 Hok (e0, t0)); left; reflexivity).
+    rewrite Hn0. cbn [negb andb].
+    destruct Hin as [Hin|Hin].
+    - injection Hin as -> ->. destruct (mem_str t seen) eqn:Hs; [left; reflexivity|].
+      cbn [negb andb]. rewrite Hh. cbn [negb]. right. left. reflexivity.
+    - destruct (mem_str t0 seen) eqn:Hs0; cbn [negb andb].
+      + destruct (IH seen e t Hok' Hin Hh) as [H|H]; [left; exact H|right; exact H].
+      + destruct (IH (t0 :: seen) e t Hok' Hin Hh) as [H|H].
+        * rewrite mem_str_cons in H. apply orb_prop in H. destruct H as [H|H]; [|left; exact H].
+          apply str_eqb_eq in H. subst t0.
+          assert (e = e0).
+          { apply (proj2 Hok e t e0 t); [right; exact Hin|left; reflexivity|reflexivity]. }
+          subst e0. rewrite Hh. cbn [negb]. right. left. reflexivity.
+        * right. destruct (negb (existsb (hides pm false e0) n)); [right; exact H|exact H].
+  Qed.
+
+  Lemma bool_eq_of_imp (a b : bool) : (a = true -> b = true) -> (b = true -> a = true) -> a = b.
+  Proof. destruct a, b; intros H1 H2; try reflexivity; [symmetry; apply H1; reflexivity|apply H2; reflexivity]. Qed.
+
+  (* per file: the thread executor's queries reach what the single executor's reach *)
+  Lemma file_anyP_equal n f x s :
+    texts_ok (f_msgs x) -> macro_local s ->
+    anyP (thread_file_queries pm n f x) s = anyP (file_queries pm true n f x) s.
+  Proof.
+    intros Hok Hml. apply bool_eq_of_imp; unfold anyP; intros H; apply existsb_exists in H;
+      destruct H as [[e g] [Hq Hp]]; cbn [fst snd] in Hp; apply existsb_exists.
+    - (* thread -> single *)
+      unfold thread_file_queries, file_queries in Hq. apply in_app_or in Hq. destruct Hq as [[Hq|Hq]|Hq].
+      + exists (e, g). split; [left; exact Hq|exact Hp].
+      + apply nomsg_queries_only in Hq. destruct Hq as [_ [t Ht]].
+        exists (e, true). split; [right; eapply nomsg_queries_all; exact Ht|]. cbn [fst snd]. eapply P_mono. exact Hp.
+      + unfold log_queries in Hq. apply in_map_iff in Hq. destruct Hq as [[e1 t1] [Heq Hm]]. cbn [fst] in Heq.
+        injection Heq as <- <-. apply pick_in in Hm.
+        exists (e1, true). split; [right; eapply nomsg_queries_all; exact Hm|]. cbn [fst snd].
+        unfold P in *. apply andb_prop in Hp. destruct Hp as [Ha Hr].
+        change (applicable true (no_macros e1) s) with (applicable true e1 s) in Ha.
+        rewrite Ha, (R1 s e1 Hr). reflexivity.
+    - (* single -> thread *)
+      unfold file_queries in Hq. destruct Hq as [Hq|Hq].
+      + exists (e, g). split; [unfold thread_file_queries, file_queries; apply in_or_app; left; left; exact Hq|exact Hp].
+      + apply nomsg_queries_only in Hq. destruct Hq as [Hg [t Ht]]. assert (g = true) by (destruct Hg; auto). subst g.
+        destruct (is_local s) eqn:Hloc.
+        * exists (e, false). split.
+          { unfold thread_file_queries, file_queries. apply in_or_app. left. right. eapply nomsg_queries_all. exact Ht. }
+          cbn [fst snd]. unfold P in *. rewrite (applicable_local e s Hloc). exact Hp.
+        * destruct (existsb (hides pm false e) n) eqn:Hh.
+          { exists (e, true). split; [|exact Hp].
+            unfold thread_file_queries, file_queries. apply in_or_app. left. right.
+            eapply nomsg_queries_hidden; eassumption. }
+          { exists (no_macros e, true). split.
+            - unfold thread_file_queries. apply in_or_app. right. unfold log_queries. apply in_map_iff.
+              exists (e, t). split; [reflexivity|].
+              destruct (forwarded_first n (f_msgs x) [] e t Hok Ht Hh) as [H|H]; [discriminate|exact H].
+            - cbn [fst snd]. unfold P in *.
+              change (applicable true (no_macros e) s) with (applicable true e s).
+              assert (Hnm : stype_eqb (s_type s) TMacro = false).
+              { destruct (stype_eqb (s_type s) TMacro) eqn:Hm; [|reflexivity]. rewrite (Hml Hm) in Hloc. discriminate. }
+              rewrite (R2 s e Hnm). exact Hp. }
+  Qed.
+
+  Lemma existsb_ext_in {A} (f g : A -> bool) l : (forall x, In x l -> f x = g x) -> existsb f l = existsb g l.
+  Proof.
+    induction l as [|x l IH]; intros H; cbn; [reflexivity|].
+    rewrite (H x (or_introl eq_refl)), IH; [reflexivity|]. intros y Hy. apply H. right. exact Hy.
+  Qed.
+
+  Lemma all_anyP_equal n f fs s :
+    Forall (fun x => texts_ok (f_msgs x)) fs -> macro_local s ->
+    anyP (thread_queries pm n f fs) s = anyP (single_queries pm n f fs) s.
+  Proof.
+    intros Hok Hml. unfold anyP, thread_queries, single_queries. rewrite !existsb_flat_map.
+    apply existsb_ext_in. intros x Hx. rewrite Forall_forall in Hok.
+    apply (file_anyP_equal n f x s (Hok x Hx) Hml).
+  Qed.
+End ThreadEqualsSingle.
+
+Section ThreadEqualsSingle2.
+  Variable pm : str -> str -> bool.
+
+  Lemma matches_doc_nomacro1 s e : matches_doc pm s (no_macros e) = true -> matches_doc pm s e = true.
+  Proof. unfold matches_doc. destruct (stype_eqb (s_type s) TMacro); [cbn; discriminate|exact (fun H => H)]. Qed.
+  Lemma matches_doc_nomacro2 s e : stype_eqb (s_type s) TMacro = false -> matches_doc pm s (no_macros e) = matches_doc pm s e.
+  Proof. unfold matches_doc. intros ->. reflexivity. Qed.
+  Lemma located_nomacro1 s e : located pm s (no_macros e) = true -> located pm s e = true.
+  Proof. unfold located. destruct (stype_eqb (s_type s) TMacro); [cbn; discriminate|exact (fun H => H)]. Qed.
+  Lemma located_nomacro2 s e : stype_eqb (s_type s) TMacro = false -> located pm s (no_macros e) = located pm s e.
+  Proof. unfold located. intros ->. reflexivity. Qed.
+
+  Lemma derive_thread_single n f fs wq M s :
+    Forall (fun x => texts_ok (f_msgs x)) fs -> macro_local s ->
+    derive pm (thread_queries pm n f fs ++ wq) M s = derive pm (single_queries pm n f fs ++ wq) M s.
+  Proof.
+    intros Hok Hml. unfold derive. rewrite !anyhide_app, !anyreach_app.
+    pose proof (all_anyP_equal pm (matches_doc pm) (matches_doc_nomacro1) (matches_doc_nomacro2) n f fs s Hok Hml) as H1.
+    pose proof (all_anyP_equal pm (located pm) (located_nomacro1) (located_nomacro2) n f fs s Hok Hml) as H2.
+    unfold anyP, P in H1, H2. unfold anyhide, anyreach, hides, reach. rewrite H1, H2. reflexivity.
+  Qed.
+
+  Lemma whole_run_unmatched_of_nomsg k cfg n f fs wp o :
+    whole_run pm k cfg n f fs wp = Some o ->
+    (if c_info cfg && negb (is_nil_list (o_nomsg o))
+     then report_unmatched pm (c_filters cfg) (c_inline cfg) (o_nomsg o) (map f_path fs) else Some []) = Some (o_unmatched o).
+  Proof.
+    unfold whole_run. intros H.
+    destruct (exec_files pm k n f fs) as [sr|]; [|discriminate].
+    destruct (logger_run pm true _ wp) as [[st outs]|]; [|discriminate].
+    cbv zeta in H.
+    destruct (if c_info cfg && negb (is_nil_list (l_nomsg st)) then _ else _) as [u|] eqn:Hu; [|discriminate].
+    injection H as <-. cbn [o_nomsg o_unmatched]. exact Hu.
+  Qed.
+
+  Lemma whole_run_thread_nomsg cfg n f fs wp o :
+    whole_run pm (Some EThread) cfg n f fs wp = Some o -> uniq n = true -> Forall (inline_present n) fs ->
+    o_nomsg o = map (derive pm (thread_queries pm n f fs ++ nomsg_queries pm true n f [] wp) (flat_map f_locs fs)) n.
+  Proof.
+    unfold whole_run, exec_files. intros H Hu Hin.
+    destruct (multi_files pm EThread n f n f [] fs) as [sr|] eqn:Hs; [|discriminate].
+    pose proof (multi_files_spec pm EThread n f fs n f [] sr Hs eq_refl eq_refl Hin) as (Hn & Hf & _).
+    apply thread_files_flags in Hs; [|exact Hu|exact Hin].
+    destruct (logger_run pm true (mkL (sr_nomsg sr) (sr_nofail sr) [] false) wp) as [[st outs]|] eqn:Hr; [|discriminate].
+    apply logger_run_nomsg in Hr. cbn [l_nomsg l_nofail l_seen] in Hr.
+    rewrite (nomsg_queries_static pm true _ _ _ _ [] wp Hn Hf), Hs, map_derive_derive, app_nil_r in Hr.
+    cbv zeta in H.
+    destruct (if c_info cfg && negb (is_nil_list (l_nomsg st)) then _ else _) as [u|]; [|discriminate].
+    injection H as <-. cbn [o_nomsg]. exact Hr.
+  Qed.
+
+  (* the thread executor ends with the flags of the single executor and reports the same
+     unmatched suppressions *)
+  Theorem thread_equals_single cfg n f fs wp o1 o2 :
+    whole_run pm None cfg n f fs wp = Some o1 ->
+    whole_run pm (Some EThread) cfg n f fs wp = Some o2 ->
+    uniq n = true -> Forall (inline_present n) fs ->
+    Forall (fun x => texts_ok (f_msgs x)) fs -> Forall macro_local n ->
+    o_nomsg o2 = o_nomsg o1 /\ o_unmatched o2 = o_unmatched o1.
+  Proof.
+    intros H1 H2 Hu Hin Hok Hml.
+    assert (Hn : o_nomsg o2 = o_nomsg o1).
+    { rewrite (whole_run_thread_nomsg cfg n f fs wp o2 H2 Hu Hin).
+      pose proof (whole_run_single_spec pm cfg n f fs wp o1 H1 Hin) as Hs. cbv zeta in Hs. destruct Hs as (-> & _).
+      unfold run_queries. apply map_ext_in. intros s Hs. apply derive_thread_single; [exact Hok|].
+      rewrite Forall_forall in Hml. apply Hml. exact Hs. }
+    split; [exact Hn|].
+    apply whole_run_unmatched_of_nomsg in H1. apply whole_run_unmatched_of_nomsg in H2.
+    rewrite Hn in H2. rewrite H1 in H2. injection H2 as ->. reflexivity.
+  Qed.
+End ThreadEqualsSingle2.
